@@ -140,9 +140,14 @@ WholeMonth ==
         /\ DayNumber(y, m, dd) = n + dd - 1
         /\ FromDayNumber(n + dd - 1) = <<y, m, dd>>
 
+\* the month walk (every month of 1900..9999) checks the long strides only: the
+\* short ones are walked step by step by DateArith and checked on the day walks
+LongStrides == {k \in Strides : k >= 365 \/ k <= 0 - 365}
+ArithStrides == IF Gran = 2 THEN LongStrides ELSE Strides
+
 ArithLaw ==
   WithArith =>
-    \A k \in Strides \cup {FirstDay - n, LastDay - n} :
+    \A k \in ArithStrides \cup {FirstDay - n, LastDay - n} :
        InRange(n + k) =>
          LET e == AddDays(<<y, m, d>>, k) IN
          /\ ValidDate(e[1], e[2], e[3])
